@@ -23,7 +23,8 @@ import (
 //     `lastTable = nextTable` AFTER it and nowhere else;
 //   - customRoutes: `continue` on transport/status/decode errors, route.SetTable unconditionally after
 //     NewTableCustom, the decode target declared per poll (repair of D32);
-//   - no recover() in route/, main.go, registry/custom (none is relied upon);
+//   - the only recover() in route/, main.go, registry/custom is the guard around gobwas/glob's Match (repair of
+//     D33); no other is relied upon;
 //   - non-finite weights rejected in addRoute/weighRoute (repair of D02), host pattern compiled in addRoute
 //     (repair of D03), no glob.MustCompile in package route;
 //   - every lookup closure of main.go calls route.GetTable() exactly once.
@@ -414,6 +415,33 @@ func c02Panics(x *X) {
 		}())
 	}
 	x.defStrList("mustCompileSites", c02FuncsCalling(x, "route", "glob.MustCompile"))
+	// who calls Match on a compiled glob (method call `.Match(…)` with one argument) in package route
+	var ms []string
+	for _, f := range x.files("route") {
+		for _, d := range f.Decls {
+			fd, ok := d.(*ast.FuncDecl)
+			if !ok || fd.Body == nil {
+				continue
+			}
+			n := 0
+			ast.Inspect(fd.Body, func(m ast.Node) bool {
+				if c, ok := m.(*ast.CallExpr); ok && len(c.Args) == 1 {
+					if se, ok := c.Fun.(*ast.SelectorExpr); ok && se.Sel.Name == "Match" {
+						n++
+					}
+				}
+				return true
+			})
+			if n > 0 {
+				ms = append(ms, fd.Name.Name)
+			}
+		}
+	}
+	sort.Strings(ms)
+	x.defStrList("globMatchSites", ms)
+	if fd := x.funcDecl("route", "", "globMatch"); fd != nil {
+		x.defStrList("globMatchSkeleton", c02Skeleton(x, fd.Body, c02Set("recover", "g.Match"), nil))
+	}
 }
 
 // c02Lookups: every function literal or function of main.go that calls Lookup / LookupHost on a table loads
